@@ -54,6 +54,10 @@ def tasks(tier, seed):
                     continue
                 T.append(('fixedpoint', Mf, Mc, sw, finter, 1))
             T.append(('defect', Mf, Mc, sw))
+    # different quadrature types on the levels (a coarse level with the left end point as node under a fine level without)
+    for qts in ((('RADAU-RIGHT', 'LOBATTO'), ('GAUSS', 'RADAU-LEFT')) if quick else (('RADAU-RIGHT', 'LOBATTO'), ('GAUSS', 'RADAU-LEFT'), ('RADAU-RIGHT', 'RADAU-LEFT'), ('LOBATTO', 'RADAU-RIGHT'), ('LOBATTO', 'LOBATTO'))):
+        for sw in ('implicit', 'explicit'):
+            T.append(('fixedpoint', 3, 2, sw, False, 1, qts))
     T.append(('fixedpoint3', 2, 2, 1, 'implicit', 1))
     T.append(('fixedpoint3', 3, 2, 1, 'explicit', 1))
     T.append(('fixedpoint3', 3, 2, 2, 'implicit', 1))  # equal node counts on the pair that inherits a correction
@@ -83,7 +87,7 @@ def tasks(tier, seed):
 def run_task(rep, task):
     sp.install_shadows()
     if task[0] == 'fixedpoint':
-        fixedpoint_case(rep, task[1:3], task[3], task[4], task[5])
+        fixedpoint_case(rep, task[1:3], task[3], task[4], task[5], qts=(task[6] if len(task) > 6 else None))
     elif task[0] == 'fixedpoint3':
         fixedpoint_case(rep, task[1:4], task[4], False, task[5])
     elif task[0] == 'defect':
@@ -105,12 +109,12 @@ def symmat(name, shape, lower=False, pad=True, strict=False):
     return A
 
 
-def make_step(Ms, sw, finter, prob=sp.UFProb, pparams=None, space=sp.Inject, qd='LU'):
+def make_step(Ms, sw, finter, prob=sp.UFProb, pparams=None, space=sp.Inject, qd='LU', qts=None):
     swc = generic_implicit if sw == 'implicit' else explicit
     if prob is sp.UFProb and pparams is None:
         pparams = {'name': ['F', 'Fc1', 'Fc2'][: len(Ms)]}  # every coarser level has its own uninterpreted right-hand side
     d = dict(problem_class=prob, problem_params=pparams or {}, sweeper_class=swc,
-             sweeper_params={'num_nodes': list(Ms), 'quad_type': 'RADAU-RIGHT', **({'QI': qd} if sw == 'implicit' else {})},
+             sweeper_params={'num_nodes': list(Ms), 'quad_type': (list(qts) if qts else 'RADAU-RIGHT'), **({'QI': qd} if sw == 'implicit' else {})},
              level_params={'dt': 0.5}, step_params={'maxiter': 1}, space_transfer_class=space,
              base_transfer_params={'finter': finter})
     return Step(d)
@@ -161,13 +165,13 @@ def _noting_init(self, fine_level, coarse_level, *a, **k):
 BaseTransfer.__init__ = _noting_init
 
 
-def fixedpoint_case(rep, Ms, sw, finter, nsweeps):
-    name = f'fixedpoint/M{"-".join(map(str, Ms))}/{sw}/finter{int(finter)}/ns{nsweeps}'
+def fixedpoint_case(rep, Ms, sw, finter, nsweeps, qts=None):
+    name = f'fixedpoint/M{"-".join(map(str, Ms))}/{sw}/finter{int(finter)}/ns{nsweeps}' + ('/' + '+'.join(qts) if qts else '')
     NL = len(Ms)
     c = Ctx()
     Ctx.cur = c
     try:
-        st = make_step(Ms, sw, finter)
+        st = make_step(Ms, sw, finter, qts=qts)
         dt = SymReal(frac(0.3))
         cons = parametric_tables(st, sw, dt)
         bts = connect(st)
@@ -215,14 +219,14 @@ def fixedpoint_case(rep, Ms, sw, finter, nsweeps):
                 else:
                     ok = False
                     if res == 'sat':
-                        fixedpoint_triage(rep, Ms, sw, finter, nsweeps, name)
+                        fixedpoint_triage(rep, Ms, sw, finter, nsweeps, name, qts)
         for l in range(NL - 1, 0, -1):
             st.transfer(st.levels[l], st.levels[l - 1])
         goal = z3.And([R(Lf.u[m][0]) == U[m - 1] for m in range(1, Mf + 1)] + ([R(Lf.f[m][0]) == fold[m - 1] for m in range(1, Mf + 1)] if finter else []))
         res, model = prove(goal, list(c.assume) + list(c.pc) + axioms + lemmas, timeout_ms=180000, name=f'{name}:fine-values-unchanged')
         rep.ob(f'{name}:fine-values-unchanged', res)
         if res == 'sat':
-            fixedpoint_triage(rep, Ms, sw, finter, nsweeps, name)
+            fixedpoint_triage(rep, Ms, sw, finter, nsweeps, name, qts)
         # vacuity + sensitivity
         res, _ = satisfiable(list(c.assume) + axioms, timeout_ms=60000, name=f'{name}:assumptions', kind='vacuity')
         if res != 'unknown':
@@ -281,7 +285,7 @@ def mutated_tau(rep, Ms, sw, name):
 # ------------------------------------------------------------------------------------------------ float replay (linear + nonlinear)
 
 
-def float_cycle(Ms, sw, finter, nsweeps, lam=-1.3, cubic=0.4, dt=0.3, u0=0.7, qd='LU', perturb=None):
+def float_cycle(Ms, sw, finter, nsweeps, lam=-1.3, cubic=0.4, dt=0.3, u0=0.7, qd='LU', perturb=None, qts=None):
     """real float classes: put the collocation solution of u' = lam u + cubic u^3 on the fine level, run one down-up cycle, return max change"""
     from pySDC.core.problem import Problem
     from pySDC.implementations.datatype_classes.mesh import mesh
@@ -307,7 +311,7 @@ def float_cycle(Ms, sw, finter, nsweeps, lam=-1.3, cubic=0.4, dt=0.3, u0=0.7, qd
             me[:] = fsolve(g, float(u0_[0]), xtol=1e-15)[0]
             return me
 
-    st = make_step(Ms, sw, finter, prob=NL, pparams={'lvl': list(range(len(Ms)))}, space=FloatInjectT, qd=qd)
+    st = make_step(Ms, sw, finter, prob=NL, pparams={'lvl': list(range(len(Ms)))}, space=FloatInjectT, qd=qd, qts=qts)
     for L in st.levels:
         L.params.dt = dt
         L.status.time = 0.0
@@ -379,16 +383,16 @@ class FMass(Problem):
         return me
 
 
-def fixedpoint_triage(rep, Ms, sw, finter, nsweeps, name):
+def fixedpoint_triage(rep, Ms, sw, finter, nsweeps, name, qts=None):
     rep.replayed += 1
     try:
-        dev, resid = float_cycle(Ms, sw, finter, nsweeps)
+        dev, resid = float_cycle(Ms, sw, finter, nsweeps, qts=qts)
     except Exception as e:
         rep.unreproduced(name, f'{type(e).__name__}: {e}')
         return
     if dev > 1e-9:
         rep.violation(f'{PID}/fixed-point/{sw}/finter{int(finter)}', f'{name}: real float cycle on a nonlinear problem moves the fine collocation solution by {dev:.3e}',
-                      {'task': ['fixedpoint', list(Ms), sw, finter, nsweeps], 'deviation': dev, 'collocation_residual_of_start': resid})
+                      {'task': ['fixedpoint', list(Ms), sw, finter, nsweeps, list(qts) if qts else None], 'deviation': dev, 'collocation_residual_of_start': resid})
     else:
         rep.unreproduced(name, {'float_cycle_deviation': dev})
 
@@ -841,7 +845,7 @@ def replay(path):
     d = json.load(open(path))['replay']
     t = d['task']
     if t[0] == 'fixedpoint':
-        dev, _ = float_cycle(tuple(t[1]), t[2], t[3], t[4])
+        dev, _ = float_cycle(tuple(t[1]), t[2], t[3], t[4], qts=(t[5] if len(t) > 5 else None))
     elif t[0] == 'defect':
         dev = float_defect(t[1], t[2], t[3])
     elif t[0] == 'massdefect':
